@@ -211,6 +211,16 @@ Definition prop_resolve (args : list bytes) : bytes :=
   let want := run_resolve_with true true a in
   if bytes_eqb want obs then bs "ok" else bs "FAIL want=" ++ firstn 300 want.
 
+(* end-to-end dial: [mode; target; network; address handed to the dialer; nallow; allow...; deny...];
+   whatever the path (DNS cache, client with or without cache, literal, name, retry), the
+   connection may be made iff the control decision for the address dialled allows it *)
+Definition run_dial (args : list bytes) : bytes :=
+  match args with _ :: _ :: r => run_control r | _ => bs "badargs" end.
+Definition prop_dial (args : list bytes) : bytes :=
+  match args with _ :: _ :: r => prop_control r | _ => bs "badargs" end.
+Definition run_dial_unrepaired (args : list bytes) : bytes :=
+  match args with _ :: _ :: r => run_control_unrepaired r | _ => bs "badargs" end.
+
 Definition ops_C16 : list (bytes * (list bytes -> bytes)) :=
   [ (bs "C16.parse_ip", run_parse_ip);
     (bs "C16.parse_cidr", run_parse_cidr);
@@ -226,5 +236,8 @@ Definition ops_C16 : list (bytes * (list bytes -> bytes)) :=
     (bs "C16.resolve", run_resolve);
     (bs "C16.prop.resolve", prop_resolve);
     (bs "C16.control_unrepaired", run_control_unrepaired);
+    (bs "C16.dial", run_dial);
+    (bs "C16.prop.dial", prop_dial);
+    (bs "C16.dial_unrepaired", run_dial_unrepaired);
     (bs "C16.well_known_unrepaired", run_well_known_unrepaired);
     (bs "C16.resolve_unrepaired", run_resolve_unrepaired) ].
